@@ -215,6 +215,16 @@ Record LInv (a : jst) (ws : list wr) : Prop := {
   li_pend : forall b rep, j_pend a = Some (b, rep) -> rep_src rep;
 }.
 
+(* what one item of the trace does to the record list: a JRecord item appends the record of its
+   step; and the dependency list of a step that has been recorded in this Work does not change
+   any more (nor does the step become un-recorded) *)
+Definition Stab (a b : jst) : Prop :=
+  forall x, ~ unrec (j_r a) x -> disc_of (j_w b) x = disc_of (j_w a) x /\ ~ unrec (j_r b) x.
+
+Definition LStep (a : jst) (ws : list wr) (j : jitem) (b : jst) : Prop :=
+  LInv b (ws ++ map (rec_of wg (j_w b)) (rec_item j)) /\ Stab a b /\
+  (forall p, In p (rec_item j) -> ~ unrec (j_r b) (fst p)).
+
 Lemma HM_frame w ws w' ws' b :
   disc_of w' b = disc_of w b ->
   (forall n, In n (files w b) -> fs_get (ws_fs w') n = fs_get (ws_fs w) n) ->
@@ -254,6 +264,29 @@ Proof.
   - exact Hp.
 Qed.
 
+Lemma LStep_gen a ws j r' w' aw' pend' run' :
+  LInv a ws ->
+  (forall b, get_state (rs_bs r') b <> Unknown -> get_state (rs_bs (j_r a)) b <> Unknown) ->
+  cache_ext (j_w a) w' ->
+  rec_item j = [] ->
+  (forall b, unrec r' b -> unrec (j_r a) b) ->
+  (forall b, b < nb -> wb_cmdline (get_wbuild wg b) <> None -> settled r' b ->
+             settled (j_r a) b \/ HM w' ws b) ->
+  (forall b rep, pend' = Some (b, rep) -> rep_src rep) ->
+  LStep a ws j (mkJ r' w' aw' pend' run').
+Proof.
+  intros L Hk X Ej Hu Hs Hp. unfold LStep. rewrite Ej. cbn [map]. rewrite app_nil_r.
+  split; [exact (LInv_gen a ws r' w' aw' pend' run' L Hk X Hu Hs Hp)|].
+  split; [|intros p []]. intros x Hx. cbn [j_r j_w].
+  split; [exact (cache_ext_disc_of _ _ x X)|]. intro H. apply Hx, Hu, H.
+Qed.
+
+Lemma LStep_same a ws j : LInv a ws -> rec_item j = [] -> LStep a ws j a.
+Proof.
+  intros L Ej. unfold LStep. rewrite Ej. cbn [map]. rewrite app_nil_r.
+  split; [exact L|]. split; [|intros p []]. intros x Hx. now split.
+Qed.
+
 (* a write by a running command does not touch the files of a settled step *)
 Lemma LInv_write a ws n t :
   JInv cf decls wg a -> LInv a ws -> write_ok wg (j_run a) (JWrite n t) ->
@@ -283,18 +316,31 @@ Proof.
     + apply Hbx. exact (outs_disjoint g wg Hag b x n Lb Lx Hn' Ix).
 Qed.
 
+Lemma LStep_write a ws n t :
+  JInv cf decls wg a -> LInv a ws -> write_ok wg (j_run a) (JWrite n t) ->
+  LStep a ws (JWrite n t) (mkJ (j_r a) (set_fs (j_w a) n t) (j_aw a) (j_pend a) (j_run a)).
+Proof.
+  intros J L Hw. unfold LStep. cbn [rec_item map]. rewrite app_nil_r.
+  split; [exact (LInv_write a ws n t J L Hw)|]. split; [|intros p []].
+  intros x Hx. cbn [j_r j_w]. split; [reflexivity|exact Hx].
+Qed.
+
 (* record_finished for step b (with or without a record) *)
-Lemma LInv_record a ws b rep w' ro r' aw' run' :
+Lemma LInv_record a ws b rep w' ro r' aw' run' j :
+  rec_item j = match ro with Some h => [(b, h)] | None => [] end ->
   LInv a ws -> b < nb ->
   record_finished (j_w a) b (get_wbuild wg b) rep = Ok (w', ro) -> j_pend a = Some (b, rep) ->
+  unrec (j_r a) b ->
   (forall x, get_state (rs_bs r') x <> Unknown -> get_state (rs_bs (j_r a)) x <> Unknown) ->
   (forall x, unrec r' x -> x <> b /\ unrec (j_r a) x) ->
   (forall x, x <> b -> settled r' x -> settled (j_r a) x) ->
-  exists ws', LInv (mkJ r' w' aw' None run') ws'.
+  LStep a ws j (mkJ r' w' aw' None run').
 Proof.
-  intros [K Lg Hh U S Pd] Lb Er Hp Hk Hu Hs.
+  intros Ej [K Lg Hh U S Pd] Lb Er Hp Un Hk Hu Hs.
   set (bd := get_wbuild wg b) in *.
   set (ws' := match ro with Some h => ws ++ [wr_of bd (disc_of w' b) h] | None => ws end).
+  assert (Ews : ws ++ map (rec_of wg w') (rec_item j) = ws').
+  { rewrite Ej. unfold ws'. destruct ro as [h|]; cbn [map rec_of fst snd]; [reflexivity|apply app_nil_r]. }
   destruct (record_ext _ _ _ _ _ _ Er) as (F & Hhs & _ & _).
   pose proof (replace_wholesale _ _ _ _ _ _ Er) as (_ & Hother).
   assert (Hown : forall o, In o (wb_outs bd) -> P o = Some b)
@@ -305,7 +351,12 @@ Proof.
   assert (Hsrc : forall d, In d (disc_of w' b) -> P d = None).
   { intros d Hd. destruct (record_deps_from _ _ _ _ _ _ Er d Hd) as (n & Hn & Hne & Hc).
     exact (Pd b rep Hp n d Hn Hne Hc). }
-  exists ws'. constructor; cbn [j_r j_w j_pend].
+  unfold LStep. cbn [j_r j_w]. rewrite Ews. split; [|split].
+  2:{ intros x Hx. assert (Hne : x <> b) by (intros ->; exact (Hx Un)).
+      split; [exact (Hother x Hne)|]. intro H. exact (Hx (proj2 (Hu x H))). }
+  2:{ intros p Hin H. rewrite Ej in Hin. destruct ro as [h|]; [|destruct Hin].
+      destruct Hin as [<-|[]]. cbn [fst] in H. exact (proj1 (Hu b H) eq_refl). }
+  constructor; cbn [j_r j_w j_pend].
   - intros x Hx. apply K, Hk, Hx.
   - unfold ws'. destruct ro as [h|].
     + exact (log_is_record _ _ _ _ _ _ _ Lg Er).
@@ -366,7 +417,7 @@ Qed.
 (* ---- preservation ---- *)
 
 Lemma LInv_step a ws j b :
-  JInv cf decls wg a -> LInv a ws -> item_src j -> jstep cf wg a j b -> exists ws', LInv b ws'.
+  JInv cf decls wg a -> LInv a ws -> item_src j -> jstep cf wg a j b -> LStep a ws j b.
 Proof.
   intros J L Hj Hstep. pose proof Hstep as (Hs & Hw & Hwr & Hrun).
   destruct a as [r w aw pend run], b as [r' w' aw' pend' run'].
@@ -376,7 +427,7 @@ Proof.
   destruct j as [c|b0|b0 v|b0 p n|b0|n|n t|b0 t rep|b0 h|ok]; cbn [proj_s1] in Hs; cbn [run_after] in *.
   7:{ (* write *)
     cbn [accepts] in Hs. injection Hs as <-. destruct Hw as (-> & -> & ->).
-    exists ws. exact (LInv_write _ ws n t J L Hwr). }
+    exact (LStep_write _ ws n t J L Hwr). }
   all: apply accepts_one in Hs; pose proof (accept1_step cf _ _ _ Hs) as Hst;
     assert (Hk : forall x, get_state (rs_bs r') x <> Unknown -> get_state (rs_bs r) x <> Unknown)
       by (intro x; exact (step_known_back cf decls r _ r' x R Hst));
@@ -384,17 +435,16 @@ Proof.
       by (intros x Ex; rewrite (step_final cf decls r _ r' x R Hst); [exact Ex|rewrite Ex; cbn; tauto]);
     destruct (accept_sum cf decls _ _ _ R Hs) as [S R']; cbn [ev_sum] in S.
   - (* update *)
-    destruct S as [-> _]. destruct Hw as (-> & -> & ->). exists ws. exact L.
+    destruct S as [-> _]. destruct Hw as (-> & -> & ->). apply LStep_same; [exact L|reflexivity].
   - (* pop *)
-    destruct S as (SS & Hc & Hc' & Lb & E). destruct Hw as (-> & -> & ->). exists ws.
-    apply (LInv_gen _ ws _ _ _ _ _ L Hk (cache_ext_refl _)); cbn [j_r j_w j_pend].
+    destruct S as (SS & Hc & Hc' & Lb & E). destruct Hw as (-> & -> & ->).     apply (LStep_gen _ ws _ _ _ _ _ _ L Hk (cache_ext_refl _)); [reflexivity|..]; cbn [j_r j_w j_pend].
     + intros x (H1 & _). split; [intro Ex; apply H1, Hfin, Ex|rewrite Hc; discriminate].
     + intros x _ _ [Ex|[Ex|Ex]]; [left; left; now rewrite <- SS|rewrite Hc' in Ex; discriminate ..].
     + exact (li_pend _ _ L).
   - (* verdict *)
     destruct S as (SS & Hc & Hc' & Lb & E & Hph). destruct Hw as (res & Ec & Hcode & Haw).
     assert (Hp' : pend' = pend) by (destruct v; destruct Haw; auto). subst pend'.
-    exists ws. apply (LInv_gen _ ws _ _ _ _ _ L Hk (check_ext _ _ _ _ _ _ Ec)); cbn [j_r j_w j_pend].
+    apply (LStep_gen _ ws _ _ _ _ _ _ L Hk (check_ext _ _ _ _ _ _ Ec)); [reflexivity|..]; cbn [j_r j_w j_pend].
     + intros x (H1 & _). split; [intro Ex; apply H1, Hfin, Ex|rewrite Hc; discriminate].
     + intros x Lx Hcx [Ex|[Ex|Ex]]; [left; left; now rewrite <- SS| |rewrite Hc' in Ex; discriminate].
       rewrite Hc' in Ex. injection Ex as -> ->. right.
@@ -406,15 +456,13 @@ Proof.
     destruct S as (Lb & Ep & En & U & S).
     destruct p, n; try contradiction.
     + (* Want -> Ready *)
-      destruct S as (Hc & Hc'). destruct Hw as (-> & -> & ->). exists ws.
-      apply (LInv_gen _ ws _ _ _ _ _ L Hk (cache_ext_refl _)); cbn [j_r j_w j_pend].
+      destruct S as (Hc & Hc'). destruct Hw as (-> & -> & ->).       apply (LStep_gen _ ws _ _ _ _ _ _ L Hk (cache_ext_refl _)); [reflexivity|..]; cbn [j_r j_w j_pend].
       * intros x (H1 & _). split; [intro Ex; apply H1, Hfin, Ex|rewrite Hc; discriminate].
       * intros x _ _ [Ex|[Ex|Ex]]; [|rewrite Hc' in Ex; discriminate ..].
         left. left. destruct (Nat.eq_dec x b0) as [->|Hne]; [congruence|]. now rewrite <- (U x Hne).
       * exact (li_pend _ _ L).
     + (* Ready -> Queued *)
-      destruct S as (Hc & _ & Hc'). destruct Hw as (-> & -> & ->). exists ws.
-      apply (LInv_gen _ ws _ _ _ _ _ L Hk (cache_ext_refl _)); cbn [j_r j_w j_pend].
+      destruct S as (Hc & _ & Hc'). destruct Hw as (-> & -> & ->).       apply (LStep_gen _ ws _ _ _ _ _ _ L Hk (cache_ext_refl _)); [reflexivity|..]; cbn [j_r j_w j_pend].
       * intros x (H1 & _). split; [intro Ex; apply H1, Hfin, Ex|rewrite Hc; discriminate].
       * intros x _ _ [Ex|[Ex|Ex]]; [|destruct Hc' as [Hc'|Hc']; rewrite Hc' in Ex; discriminate ..].
         left. left. destruct (Nat.eq_dec x b0) as [->|Hne]; [congruence|]. now rewrite <- (U x Hne).
@@ -423,15 +471,14 @@ Proof.
       destruct S as ((v & rec & Hc & Hv) & Hc').
       destruct Hv as [[-> ->]|[_ Hv]]; [|congruence].
       rewrite Hc in A. cbn [aw_ok] in A. subst aw. cbn [wstepP aw_is] in Hw. destruct Hw as (-> & -> & ->).
-      exists ws. apply (LInv_gen _ ws _ _ _ _ _ L Hk (cache_ext_refl _)); cbn [j_r j_w j_pend].
+      apply (LStep_gen _ ws _ _ _ _ _ _ L Hk (cache_ext_refl _)); [reflexivity|..]; cbn [j_r j_w j_pend].
       * intros x (H1 & _). split; [intro Ex; apply H1, Hfin, Ex|rewrite Hc; discriminate].
       * intros x _ _ [Ex|[Ex|Ex]]; [|rewrite Hc' in Ex; discriminate ..].
         left. destruct (Nat.eq_dec x b0) as [->|Hne]; [right; left; exact Hc|].
         left. now rewrite <- (U x Hne).
       * exact (li_pend _ _ L).
     + (* Queued -> Running *)
-      destruct S as (Hc & Hc'). destruct Hw as (-> & -> & ->). exists ws.
-      apply (LInv_gen _ ws _ _ _ _ _ L Hk (cache_ext_refl _)); cbn [j_r j_w j_pend].
+      destruct S as (Hc & Hc'). destruct Hw as (-> & -> & ->).       apply (LStep_gen _ ws _ _ _ _ _ _ L Hk (cache_ext_refl _)); [reflexivity|..]; cbn [j_r j_w j_pend].
       * intros x (H1 & _). split; [intro Ex; apply H1, Hfin, Ex|rewrite Hc; discriminate].
       * intros x _ _ [Ex|[Ex|Ex]]; [|rewrite Hc' in Ex; discriminate ..].
         left. left. destruct (Nat.eq_dec x b0) as [->|Hne]; [congruence|]. now rewrite <- (U x Hne).
@@ -440,8 +487,7 @@ Proof.
       destruct S as ((rec & Hc) & Hc'). rewrite Hc in A. destruct rec; cbn [aw_ok] in A; subst aw;
         cbn [wstepP aw_is] in Hw; try rewrite Nat.eqb_refl in Hw.
       * (* recorded before *)
-        destruct Hw as (-> & -> & ->). exists ws.
-        apply (LInv_gen _ ws _ _ _ _ _ L Hk (cache_ext_refl _)); cbn [j_r j_w j_pend].
+        destruct Hw as (-> & -> & ->).         apply (LStep_gen _ ws _ _ _ _ _ _ L Hk (cache_ext_refl _)); [reflexivity|..]; cbn [j_r j_w j_pend].
         -- intros x (H1 & _). split; [intro Ex; apply H1, Hfin, Ex|].
            rewrite Hc. intros [= ->]. apply H1, En.
         -- intros x _ _ [Ex|[Ex|Ex]]; [|rewrite Hc' in Ex; discriminate ..].
@@ -450,29 +496,27 @@ Proof.
         -- exact (li_pend _ _ L).
       * (* no record *)
         destruct Hw as (rp & Hp & Er & -> & ->).
-        apply (LInv_record _ ws b0 rp w' None r' None run L Lb Er Hp Hk); cbn [j_r].
+        assert (Un : unrec r b0) by (split; [rewrite Ep|rewrite Hc]; discriminate).
+        apply (LInv_record _ ws b0 rp w' None r' None run (JSet b0 Running Done) eq_refl L Lb Er Hp Un Hk); cbn [j_r].
         -- intros x (H1 & _). assert (x <> b0) by congruence. split; [auto|].
            split; [intro Ex; apply H1, Hfin, Ex|rewrite Hc; discriminate].
         -- intros x Hne [Ex|[Ex|Ex]]; [|rewrite Hc' in Ex; discriminate ..].
            left. now rewrite <- (U x Hne).
     + (* Running -> Failed *)
-      destruct S as ((rec & Hc) & Hc'). destruct Hw as (-> & -> & ->). exists ws.
-      apply (LInv_gen _ ws _ _ _ _ _ L Hk (cache_ext_refl _)); cbn [j_r j_w j_pend].
+      destruct S as ((rec & Hc) & Hc'). destruct Hw as (-> & -> & ->).       apply (LStep_gen _ ws _ _ _ _ _ _ L Hk (cache_ext_refl _)); [reflexivity|..]; cbn [j_r j_w j_pend].
       * intros x (H1 & _). split; [intro Ex; apply H1, Hfin, Ex|rewrite Hc; discriminate].
       * intros x _ _ [Ex|[Ex|Ex]]; [|rewrite Hc' in Ex; discriminate ..].
         left. left. destruct (Nat.eq_dec x b0) as [->|Hne]; [congruence|]. now rewrite <- (U x Hne).
       * exact (li_pend _ _ L).
   - (* start *)
-    destruct S as (SS & Hc & Hc' & Lb & E). destruct Hw as (-> & -> & ->). exists ws.
-    apply (LInv_gen _ ws _ _ _ _ _ L Hk (cache_ext_refl _)); cbn [j_r j_w j_pend].
+    destruct S as (SS & Hc & Hc' & Lb & E). destruct Hw as (-> & -> & ->).     apply (LStep_gen _ ws _ _ _ _ _ _ L Hk (cache_ext_refl _)); [reflexivity|..]; cbn [j_r j_w j_pend].
     + intros x (H1 & _). split; [intro Ex; apply H1, Hfin, Ex|rewrite Hc; discriminate].
     + intros x _ _ [Ex|[Ex|Ex]]; [left; left; now rewrite <- SS|rewrite Hc' in Ex; discriminate ..].
     + exact (li_pend _ _ L).
   - (* quiesce *)
-    destruct S as [-> _]. destruct Hw as (-> & -> & ->). exists ws. exact L.
+    destruct S as [-> _]. destruct Hw as (-> & -> & ->). apply LStep_same; [exact L|reflexivity].
   - (* finish *)
-    destruct S as (SS & Hc & Hc' & Lb & E). destruct Hw as (-> & Haw). exists ws.
-    apply (LInv_gen _ ws _ _ _ _ _ L Hk (cache_ext_refl _)); cbn [j_r j_w j_pend].
+    destruct S as (SS & Hc & Hc' & Lb & E). destruct Hw as (-> & Haw).     apply (LStep_gen _ ws _ _ _ _ _ _ L Hk (cache_ext_refl _)); [reflexivity|..]; cbn [j_r j_w j_pend].
     + intros x (H1 & _). split; [intro Ex; apply H1, Hfin, Ex|rewrite Hc; discriminate].
     + intros x _ _ [Ex|[Ex|Ex]]; [left; left; now rewrite <- SS|rewrite Hc' in Ex; discriminate ..].
     + cbn [item_src] in Hj. intros x rp Hx. destruct t; destruct Haw as [_ ->]; try discriminate.
@@ -480,14 +524,14 @@ Proof.
   - (* record *)
     destruct S as (SS & [(_ & Hadt & _)|(Hc & Hc' & Lb & E)]); [congruence|].
     destruct Hw as (rp & Hp & Er & -> & ->).
-    apply (LInv_record _ ws b0 rp w' (Some h) r' None run L Lb Er Hp Hk); cbn [j_r].
+    assert (Un : unrec r b0) by (split; [rewrite E|rewrite Hc]; discriminate).
+    apply (LInv_record _ ws b0 rp w' (Some h) r' None run (JRecord b0 h) eq_refl L Lb Er Hp Un Hk); cbn [j_r].
     + intros x (H1 & H2). assert (x <> b0) by (intros ->; apply H2, Hc'). split; [auto|].
       split; [intro Ex; apply H1, Hfin, Ex|rewrite Hc; discriminate].
     + intros x Hne [Ex|[Ex|Ex]]; [left; now rewrite <- SS|rewrite Hc' in Ex; discriminate|].
       rewrite Hc' in Ex. congruence.
   - (* return *)
-    destruct S as (SS & Hc' & Hc). destruct Hw as (-> & -> & ->). exists ws.
-    apply (LInv_gen _ ws _ _ _ _ _ L Hk (cache_ext_refl _)); cbn [j_r j_w j_pend].
+    destruct S as (SS & Hc' & Hc). destruct Hw as (-> & -> & ->).     apply (LStep_gen _ ws _ _ _ _ _ _ L Hk (cache_ext_refl _)); [reflexivity|..]; cbn [j_r j_w j_pend].
     + intros x (H1 & _). split; [intro Ex; apply H1, Hfin, Ex|].
       destruct Hc as [Hc|[(q & rec & Hc)|(q & t & rec & Hc & Ht)]]; rewrite Hc; try discriminate.
       intros [= _ -> _]. now apply Ht.
@@ -510,16 +554,41 @@ Proof.
   - discriminate.
 Qed.
 
-Lemma Work1_reach a ws tr b :
-  JInv cf decls wg a -> LInv a ws -> Forall item_src tr -> jreach cf wg a tr b ->
-  JInv cf decls wg b /\ exists ws', LInv b ws'.
+Lemma trace_records_snoc tr j : trace_records (tr ++ [j]) = trace_records tr ++ rec_item j.
+Proof. unfold trace_records. rewrite flat_map_app. cbn [flat_map]. now rewrite app_nil_r. Qed.
+
+(* the record list after a trace is the one the Work started with, then the records of the
+   trace's JRecord items *)
+Lemma Work1_reach_gen a add tr b :
+  JInv cf decls wg a -> LInv a (ws0 ++ map (rec_of wg (j_w a)) add) ->
+  (forall p, In p add -> ~ unrec (j_r a) (fst p)) ->
+  Forall item_src tr -> jreach cf wg a tr b ->
+  JInv cf decls wg b /\ LInv b (ws0 ++ map (rec_of wg (j_w b)) (add ++ trace_records tr)) /\
+  (forall p, In p (add ++ trace_records tr) -> ~ unrec (j_r b) (fst p)).
 Proof.
-  intros J L Hf H. revert Hf. induction H as [|tr b j c H IH Hs]; intro Hf.
-  - split; [exact J|]. now exists ws.
+  intros J L Hu Hf H. revert Hf. induction H as [|tr b j c H IH Hs]; intro Hf.
+  - cbn [trace_records flat_map]. rewrite app_nil_r. auto.
   - apply Forall_app in Hf. destruct Hf as [Hf Hj]. inversion Hj as [|? ? Hj1 _]; subst.
-    destruct (IH Hf) as (Jb & ws1 & Lb). split.
-    + exact (JInv_step cf decls wg Hag _ _ _ Jb Hs).
-    + exact (LInv_step _ ws1 _ _ Jb Lb Hj1 Hs).
+    destruct (IH Hf) as (Jb & Lb & Ub).
+    destruct (LInv_step _ _ _ _ Jb Lb Hj1 Hs) as (Lc & St & Nu).
+    split; [exact (JInv_step cf decls wg Hag _ _ _ Jb Hs)|].
+    rewrite trace_records_snoc, app_assoc. split.
+    + rewrite map_app, app_assoc.
+      rewrite (map_ext_in (rec_of wg (j_w c)) (rec_of wg (j_w b))); [exact Lc|].
+      intros p Hp. unfold rec_of. now rewrite (proj1 (St _ (Ub p Hp))).
+    + intros p Hp. apply in_app_or in Hp. destruct Hp as [Hp|Hp].
+      * exact (proj2 (St _ (Ub p Hp))).
+      * exact (Nu p Hp).
+Qed.
+
+Lemma Work1_reach a tr b :
+  JInv cf decls wg a -> LInv a ws0 -> Forall item_src tr -> jreach cf wg a tr b ->
+  JInv cf decls wg b /\ LInv b (ws0 ++ work_records wg (j_w b) tr).
+Proof.
+  intros J L Hf H.
+  assert (L0 : LInv a (ws0 ++ map (rec_of wg (j_w a)) [])) by (cbn [map]; now rewrite app_nil_r).
+  destruct (Work1_reach_gen a [] tr b J L0 (fun p (F : In p []) => match F with end) Hf H) as (Jb & Lb & _).
+  split; [exact Jb|exact Lb].
 Qed.
 
 End Work1.
